@@ -28,7 +28,11 @@ func H_C17_timeoutWhileRequestInFlight() {
 	w.maxFaults = 0
 	env.policy.newSwaps, env.policy.allowed, env.policy.suspicious, env.policy.minMsat = true, true, false, 0
 	svc := NewSwapService(env.services)
+	w.yieldAt = "send" // the timer is armed by the action before the one that sends
 	w.interleave = func() {
+		if w.timeouts == 0 {
+			return // no timer armed yet: nothing can fire
+		}
 		if id, _ := vOnlySwap(svc); id != "" {
 			svc.createTimeoutCallback(id)()
 		}
